@@ -87,9 +87,9 @@ class P04(SessionPlan):
                  ("adv", 11), ("tick",), ("lose", 0, "done"), ("lose", 0, "lost"), ("pub", 0, 1), ("pingresp", 0),
                  ("connect", 0, True, 0, 4), ("connect", 0, False, 4, 3)]     # again, e.g. on the protocol a refusal left idle
         depth = 3 if tier == "quick" else 4
-        for ondisc, rec in ((True, False), (False, False), (True, True)):
-            cs = [Cfg(profile=p, model=m, ondisc=ondisc, re_connect_on_disc=rec)
-                  for p in ("pubsub", "pub", "sub") for m in MODELS]
+        for ondisc, rec, ref in ((True, False, None), (False, False, None), (True, True, None), (True, False, "connect"), (True, False, "publish")):
+            cs = [Cfg(profile=p, model=m, ondisc=ondisc, re_connect_on_disc=rec, re_on_refuse=ref)
+                  for p in (("pubsub", "pub", "sub") if ref is None else ("pubsub",)) for m in MODELS]
             for ka in (0, 3):
                 for x in sweep_cases("handshake-orderings", cs, [("build", 0), ("connect", 0, True, ka, 4)], alpha, depth):
                     yield x
@@ -171,7 +171,12 @@ class P07(SessionPlan):
                  ("setwin", 0, 1), ("setwin", 0, 3), ("tick",), reconnect(0, False), reconnect(0, True),
                  ("cross", 0, "SUBACK"), ("cross", 0, "UNSUBACK")]
         depth = 3 if tier == "quick" else 4
-        return sweep_cases("sweep", cfgs(("pubsub", "sub"), ("sync",)), connected(clean=False, win=2), alpha, depth)
+        big = []
+        for n in (125, 126, 127, 130, 300):
+            st = connected(win=2) + [("sub", 0, "list", n, 1), ("ack", 0, "SUBACK", "old", [(0, 1, 2, 0x80)[k % 4] for k in range(n)]),
+                                     ("unsub", 0, "list", n), ("ack", 0, "UNSUBACK", "old")]
+            big.append(C.SessionCase("big-lists", Cfg(profile="sub"), steps=st))
+        return itertools.chain(big, sweep_cases("sweep", cfgs(("pubsub", "sub"), ("sync",)), connected(clean=False, win=2), alpha, depth))
 
 
 # ------------------------------------------------------------------------------ C08
@@ -192,7 +197,7 @@ class P08(SessionPlan):
     def extra_cases(self, tier, seed):
         rng = random.Random(seed)
         touts = (1, 2, 4, 7, 60, 1024)
-        bws = ((1, 2), (100, 1.5), (10000, 2), (1000000, 3), (10000, 1))
+        bws = ((1, 2), (100, 1.5), (10000, 2), (1000000, 3), (10000, 1), (1, 0.5))   # the last one: known finding factor<1
         sizes = (0, 10, 1000, 70000) if tier == "thorough" else (0, 1000)
         ks = (12,) if tier == "thorough" else (6,)
         for kind, lvl, tout, (bw, f), jit in itertools.product(("pub1", "pub2", "rel", "sub", "unsub"), (3, 4), touts, bws,
@@ -405,7 +410,7 @@ class P14(SessionPlan):
         }
         for prof in ("pub", "sub", "pubsub"):
             for model in MODELS:
-                cfg = Cfg(profile=prof, model=model, onconn=(model == "sync"))
+                cfg = Cfg(profile=prof, model=model, onconn=(model == "sync"), re_on_refuse=("publish" if model == "tcp" else None))
                 for sname, pre in states.items():
                     for probe in ops + pkts:
                         if probe[0] == "connect" and sname in ("lost", "lost-fresh", "refused"):
@@ -494,8 +499,11 @@ def hostile_blobs(tier, seed):
         for ident in range(1, 12):      # acknowledgements of every type for identifiers that are (or were) in use
             p = {"t": kind, "id": ident}
             if kind == "SUBACK":
-                p["codes"] = [0]
-            yield rc.encode(p)
+                for codes in ([0], [0, 1], [2, 0x80, 1], []):
+                    p["codes"] = codes
+                    yield b"T" + rc.encode(p)       # leading 'T': targeted, goes to every context
+            else:
+                yield b"T" + rc.encode(p)
     for v in valid:
         yield v
         for i in range(len(v)):
@@ -547,7 +555,10 @@ class P16(SessionPlan):
     def extra_cases(self, tier, seed):
         ctxs = self.contexts()
         for n, blob in enumerate(hostile_blobs(tier, seed)):
-            which = range(len(ctxs)) if (tier == "thorough" and len(blob) <= 3) else [(n + seed) % len(ctxs)]
+            targeted = blob[:1] == b"T" and len(blob) > 2 and blob[1] >> 4 in (4, 5, 6, 7, 9, 11)
+            if targeted:
+                blob = blob[1:]
+            which = range(len(ctxs)) if (targeted or (tier == "thorough" and len(blob) <= 3)) else [(n + seed) % len(ctxs)]
             for ci in which:
                 cfg, pre = ctxs[ci]
                 yield C.SessionCase("hostile/ctx%d" % ci, cfg, steps=list(pre) + [("raw", 0, blob)])
